@@ -101,40 +101,47 @@ func pretouchRecX86(vtm map[reflect.Type]uint8, opts option.CompileOptions) erro
 
 	for opts.RecursiveDepth >= 0 && len(vtm) > 0 {
 		next := make(map[reflect.Type]uint8)
-		for vt, v := range vtm {
+		for vt, mask := range vtm {
 			gvt := rt.UnpackType(vt)
-			if vars.GetProgram(gvt, v == 1) != nil {
-				continue
-			}
-			if _, ok := pendings[pendingKey{gvt, v == 1}]; ok {
-				continue
-			}
+			/* the program cache is keyed by (type, pointer-value): compile every requested variant */
+			for b := uint8(0); b < 2; b++ {
+				if mask&(1<<b) == 0 {
+					continue
+				}
+				pv := b == 1
+				if vars.GetProgram(gvt, pv) != nil {
+					continue
+				}
+				if _, ok := pendings[pendingKey{gvt, pv}]; ok {
+					continue
+				}
 
-			compiler := NewCompiler().apply(opts)
-			pp, err := compiler.Compile(vt, v == 1)
-			if err != nil {
-				return err
-			}
+				compiler := NewCompiler().apply(opts)
+				pp, err := compiler.Compile(vt, pv)
+				if err != nil {
+					return err
+				}
 
-			as := x86.NewAssembler(pp)
-			as.Name = vt.String()
-			text, pcdata := as.Export()
+				as := x86.NewAssembler(pp)
+				as.Name = vt.String()
+				text, pcdata := as.Export()
 
-			pendings[pendingKey{gvt, v == 1}] = x86PretouchProgram{
-				vt: gvt,
-				pv: v == 1,
-				item: loader.LoadOneItem{
-					Text:      text,
-					FuncName:  "encode_" + as.Name,
-					ArgSize:   x86.FP_args,
-					ArgPtrs:   vars.ArgPtrs,
-					LocalPtrs: vars.LocalPtrs,
-					Pcdata:    pcdata,
-				},
-			}
+				pendings[pendingKey{gvt, pv}] = x86PretouchProgram{
+					vt: gvt,
+					pv: pv,
+					item: loader.LoadOneItem{
+						Text:      text,
+						FuncName:  "encode_" + as.Name,
+						ArgSize:   x86.FP_args,
+						ArgPtrs:   vars.ArgPtrs,
+						LocalPtrs: vars.LocalPtrs,
+						Pcdata:    pcdata,
+					},
+				}
 
-			for svt, pv := range compiler.rec {
-				next[svt] = pv
+				for svt, m := range compiler.rec {
+					next[svt] |= m
+				}
 			}
 		}
 
